@@ -312,25 +312,60 @@ def build_root(kind, spec):
 # equal answers" oracle on DERIVED objects (results of operations), whose recipe-built twins share their provenance.
 
 
-def rebuild_by_value(o, _depth=0):
+def describe_value(o, _depth=0):
+    """Plain (picklable, library-free) description of the values an object carries."""
     if o is None:
         return None
     if _depth > 12:
-        raise ValueError("hierarchy too deep to rebuild")
+        raise ValueError("hierarchy too deep to describe")
     n = type(o).__name__
+    d = _depth + 1
     if n == "Sequence":
-        return Sequence(str(o), o.alphabet, id=o.id, type=o.sequence_type, parent=rebuild_by_value(o.parent, _depth + 1), validate_alphabet=False)
+        return {"k": "Sequence", "data": str(o), "alphabet": o.alphabet.name, "id": o.id, "type": _st_out(o.sequence_type), "parent": describe_value(o.parent, d)}
     if n == "Parent":
-        return Parent(id=o.id, sequence_type=o.sequence_type, strand=o._strand, location=rebuild_by_value(o.location, _depth + 1),
-                      sequence=rebuild_by_value(o.sequence, _depth + 1), parent=rebuild_by_value(o.parent, _depth + 1))
+        return {"k": "Parent", "id": o.id, "type": _st_out(o.sequence_type), "strand": o._strand.name if o._strand is not None else None,
+                "location": describe_value(o.location, d), "sequence": describe_value(o.sequence, d), "parent": describe_value(o.parent, d)}
     if n == "SingleInterval":
-        return SingleInterval(o.start, o.end, o.strand, parent=rebuild_by_value(o.parent, _depth + 1))
+        return {"k": "SingleInterval", "start": o.start, "end": o.end, "strand": o.strand.name, "parent": describe_value(o.parent, d)}
     if n == "CompoundInterval":
-        return CompoundInterval(list(o._starts), list(o._ends), o.strand, parent=rebuild_by_value(o.parent, _depth + 1))
+        return {"k": "CompoundInterval", "starts": list(o._starts), "ends": list(o._ends), "strand": o.strand.name, "parent": describe_value(o.parent, d)}
     if n == "_EmptyLocation":
-        return o
+        return {"k": "EmptyLocation"}
     if n in ("TranscriptInterval", "CDSInterval", "FeatureInterval", "VariantInterval", "GeneInterval", "FeatureIntervalCollection",
              "VariantIntervalCollection", "AnnotationCollection"):
         # the documented value form of an interval is its dictionary; its coordinate system is the parent it lives on
-        return type(o).from_dict(o.to_dict(), rebuild_by_value(o._parent_or_seq_chunk_parent, _depth + 1))
+        return {"k": n, "dict": o.to_dict(), "parent": describe_value(o._parent_or_seq_chunk_parent, d)}
     raise TypeError(n)
+
+
+def _st_out(t):
+    return None if t is None else (["enum", t.name] if isinstance(t, SequenceType) else ["str", str(t)])
+
+
+def _st_in(t):
+    return None if t is None else (SequenceType[t[1]] if t[0] == "enum" else t[1])
+
+
+def build_from_description(d):
+    if d is None:
+        return None
+    k = d["k"]
+    if k == "Sequence":
+        return Sequence(d["data"], Alphabet[d["alphabet"]], id=d["id"], type=_st_in(d["type"]), parent=build_from_description(d["parent"]), validate_alphabet=False)
+    if k == "Parent":
+        return Parent(id=d["id"], sequence_type=_st_in(d["type"]), strand=Strand[d["strand"]] if d["strand"] else None, location=build_from_description(d["location"]),
+                      sequence=build_from_description(d["sequence"]), parent=build_from_description(d["parent"]))
+    if k == "SingleInterval":
+        return SingleInterval(d["start"], d["end"], Strand[d["strand"]], parent=build_from_description(d["parent"]))
+    if k == "CompoundInterval":
+        return CompoundInterval(list(d["starts"]), list(d["ends"]), Strand[d["strand"]], parent=build_from_description(d["parent"]))
+    if k == "EmptyLocation":
+        return EmptyLocation()
+    cls = {"TranscriptInterval": TranscriptInterval, "CDSInterval": CDSInterval, "FeatureInterval": FeatureInterval, "VariantInterval": VariantInterval,
+           "GeneInterval": GeneInterval, "FeatureIntervalCollection": FeatureIntervalCollection, "VariantIntervalCollection": VariantIntervalCollection,
+           "AnnotationCollection": AnnotationCollection}[k]
+    return cls.from_dict(d["dict"], build_from_description(d["parent"]))
+
+
+def rebuild_by_value(o):
+    return build_from_description(describe_value(o))
